@@ -365,11 +365,11 @@ func oracleC06(w *polWorld, s *sut.SUT) {
 func init() {
 	core.Register(&core.World{
 		Property: "C06", Name: "c06-credentials", Level: "exploration",
-		Gen: genC06,
-		Run: func(env *core.Env, ci any) { runPol(env, ci.(*polCase), oracleC06) },
+		Gen:   genC06,
+		Run:   func(env *core.Env, ci any) { runPol(env, ci.(*polCase), oracleC06) },
 		Shape: shapePol,
-		Real: append([]string{"credentials matcher (credentials.go), setBasicAuth, upstreamProxyURL/pacProxy credential attachment, hop-by-hop modifier, dialvia proxy authorization, SOCKS5 client auth"}, realForwarder...),
-		Stub: stubCommon,
-		Rule: "credential tables drawn from exact / *:port / host:* / *:* entries (overlapping), upstream http/https/socks5 proxy static (with or without userinfo) or PAC-selected, optional basic auth on the proxy itself, optional MITM; every secret is a unique token. Clients send Proxy-Authorization (mixed case, repeated, Connection-nominated) and sometimes their own Authorization (Bearer/Basic/Digest). Oracle: per recorded arrival (after TLS termination, also inside tunnels) the exact expected Proxy-Authorization / Authorization under the documented precedence, plus raw scans of every node's received bytes for every secret in clear and base64. Non-trivial = every request answered and judged.",
+		Real:  append([]string{"credentials matcher (credentials.go), setBasicAuth, upstreamProxyURL/pacProxy credential attachment, hop-by-hop modifier, dialvia proxy authorization, SOCKS5 client auth"}, realForwarder...),
+		Stub:  stubCommon,
+		Rule:  "credential tables drawn from exact / *:port / host:* / *:* entries (overlapping), upstream http/https/socks5 proxy static (with or without userinfo) or PAC-selected, optional basic auth on the proxy itself, optional MITM; every secret is a unique token. Clients send Proxy-Authorization (mixed case, repeated, Connection-nominated) and sometimes their own Authorization (Bearer/Basic/Digest). Oracle: per recorded arrival (after TLS termination, also inside tunnels) the exact expected Proxy-Authorization / Authorization under the documented precedence, plus raw scans of every node's received bytes for every secret in clear and base64. Non-trivial = every request answered and judged.",
 	})
 }
